@@ -660,7 +660,8 @@ fn emit(f: &SrcFile, s: usize, e: usize, edits: &mut Vec<Edit>) -> Emitted {
             if first >= *o && first < end {
                 let delta = first - *o;
                 let sp = so + delta;
-                if sp < f.text.len() && line.trim_start().len() > 0 && f.text[sp..].starts_with(&line.trim_start()[..1]) {
+                let lt = line.trim_start().as_bytes();
+                if sp < f.text.len() && !lt.is_empty() && f.text.as_bytes()[sp] == lt[0] {
                     sl = f.line_of(sp);
                 }
                 break;
